@@ -119,7 +119,10 @@ def fn(name, args, script):
             return chr(to_i16(a[0]) % 256)
         if n == "STR$":
             v = num(a[0])
-            return (" " if v >= 0 else "") + (str(int(v)) if v == int(v) and abs(v) < 1e9 else repr(v))
+            t = (" " if v >= 0 else "") + (str(int(v)) if v == int(v) and abs(v) < 1e9 else repr(v))
+            if script.get("__neg_blank__") and v < 0:
+                t = " " + t
+            return t + (" " if script.get("__str_blank__") else "")
         if n == "HEX$":
             return format(to_i16(a[0]) % 65536, "X")
         if n == "LEFT$":
@@ -139,6 +142,8 @@ def fn(name, args, script):
             return s[p - 1:p - 1 + k]
         if n == "STRING$":
             k = to_i16(a[0])
+            if not isinstance(a[1], str):          # STRING$(n, code)
+                return chr(to_i16(a[1]) % 256) * k
             if k < 0 or not a[1]:
                 raise EvalError("FC")
             return a[1][0] * k
@@ -177,7 +182,7 @@ DTOK = re.compile(r"""
   | (?P<hex>&\ *H\ *[0-9A-F]+)
   | (?P<num>(?:\d+\.?\d*|\.\d+)(?:E[+-]?\d+)?)
   | (?P<id>[A-Z][A-Z0-9]*\$?)
-  | (?P<op><>|<=|>=|=<|=>|[-+*/^=<>(),])
+  | (?P<op><>|<=|>=|=<|=>|[-+*/^=<>(),;])
 """, re.X)
 
 KEYWORDS = ["INSTR", "INKEY$", "BUTTON", "JOYSTK", "POINT", "STRING$", "LEFT$", "RIGHT$", "MID$", "CHR$", "STR$", "HEX$",
@@ -310,6 +315,8 @@ def decb_eval(e, env, script):
         return env.get(var_key(e[1]), "" if e[1].endswith("$") else 0.0)
     if k == "arr":
         idx = tuple(to_i16(decb_eval(a, env, script)) for a in e[2])
+        if hasattr(env, "arr_get"):          # a machine that keeps DIM bounds (C03)
+            return env.arr_get(var_key(e[1]), idx)
         return env.get(("arr", var_key(e[1])) + idx, ("" if e[1].endswith("$") else float(sum(idx) % 7)))
     if k == "call":
         return fn(e[1], [decb_eval(a, env, script) for a in e[2]], script)
@@ -351,12 +358,16 @@ def b09_eval(e, env, script):
             return False
         if n in env:
             return env[n]
+        if hasattr(env, "unset"):            # a machine that tracks initialisation (C03)
+            return env.unset(n)
         return "" if n.endswith("$") else 0.0
     if k == "call":
         name = e[1]
         args = [b09_eval(a, env, script) for a in e[2]]
         if name.startswith("arr_"):
             idx = tuple(to_i16(a) for a in args)
+            if hasattr(env, "arr_get"):
+                return env.arr_get(name[4:], idx)
             key = ("arr", name[4:]) + idx
             return env.get(key, "" if name.endswith("$") else float(sum(idx) % 7))
         return fn(name, args, script)
